@@ -29,12 +29,14 @@ def gen_cases(ctx, names, n_cfg, profiles=None, scale=1):
     for name in names:
         for ci, cfg in enumerate(se.grid(name, rng, n_cfg)):
             big = se.BIG_PROFILES if (ci == 0 and name != "SSE2") else []     # SSE-2 tokens cost param_n PRP calls each
+            if name == "PiPtr" and ci == 1:
+                big = ["long_list_2byte"]      # pointers of two bytes with ONE pointer per pointer block (B=2, b=1): index 256 ends a block
             for prof in (profiles or (se.PROFILES + big)):
                 db = se.gen_db(name, cfg, rng, prof, scale)
                 c = se.finalize_cfg(name, cfg, db)
                 absent = se.absent_keywords(rng, name, c, db)
                 present = list(db)
-                if prof in se.BIG_PROFILES and len(present) > 12:
+                if prof in se.BIG_PROFILES + ["long_list_2byte"] and len(present) > 12:
                     # search a sample: the longest lists and a few others
                     present = sorted(present, key=lambda w: -len(db[w]))[:4] + rng.sample(present, 8)
                     present = list(dict.fromkeys(present))
